@@ -832,7 +832,7 @@ func TestCheck(t *testing.T) {
 		if racePass {
 			os.Setenv("VERIF_NO_EVIDENCE", "1")
 		}
-		n := tierN(r, 40, 400)
+		n := tierN(r, 40, 600)
 		steps := tierN(r, 10, 14)
 		hung := tierN(r, 12, 40)
 		vkit.Sched.Enable(uint64(r.Seed), 0.02, 0.01, 0.0005)
